@@ -663,6 +663,24 @@ def block_key_is_heading(ctx: Ctx, rep: Report, rid: str = "R15.12") -> None:
     rep.floor(1, "assignments of the block key in Acl.group")
 
 
+def heading_test_is_prefix(ctx: Ctx, rep: Report, rid: str = "R15.15") -> None:
+    """A remark opens a block exactly when its text starts with the `group_by` string as given (blanks included): the
+    test is `<remark>.text.startswith(group_by)` on the parameter itself, not on a stripped or otherwise changed copy."""
+    rep.rule(rid)
+    f = ctx.func("Acl.group")
+    gb = "group_by" if "group_by" in f.params else (f.params[1] if len(f.params) > 1 else None)
+    rep.require(gb is not None, "Acl.group lost its group_by parameter")
+    rebound = [x for x in own_nodes(f.node) if isinstance(x, ast.Name) and x.id == gb and isinstance(x.ctx, ast.Store)]
+    tests = [x for x in own_nodes(f.node) if isinstance(x, ast.Call) and isinstance(x.func, ast.Attribute) and x.func.attr == "startswith" and src(x.func.value).endswith(".text")]
+    rep.instance()
+    rep.require(bool(tests), "Acl.group no longer tests the remark text with startswith")
+    for t in tests:
+        if len(t.args) == 1 and isinstance(t.args[0], ast.Name) and t.args[0].id == gb and not rebound:
+            rep.ok(f"Acl.group: {snippet(t, 50)}", "prefix test with the parameter as given", where=where(f, t))
+        else:
+            rep.violation("Acl.group", snippet(t, 60), f"the heading test does not use `{gb}` as given: with group_by '=== ' a remark '=====' or '===text' opens a block too (or one that should does not)", where(f, t), inp="group_by='=== ', remark '====='")
+
+
 def members_counted_only_for_groups(ctx: Ctx, rep: Report, rid: str = "R15.13") -> None:
     """The TCAM estimate multiplies by the number of members only for an address that IS a group: the line setters
     re-type an address without emptying its members, so `len(addr.items)` is read under `addr.type == "addrgroup"`."""
@@ -740,6 +758,7 @@ def run(ctx: Ctx, rep: Report, tier: str) -> None:
     ungroup_forgets_grouping(ctx, rep)
     list_api_forwarding(ctx, rep)
     block_key_is_heading(ctx, rep)
+    heading_test_is_prefix(ctx, rep)
     members_counted_only_for_groups(ctx, rep)
     group_is_atomic(ctx, rep)
     # R15.11 sort() orders by sequence number: resequence() numbers every item it walks over, a nested block too
